@@ -401,7 +401,7 @@ template <typename Op> inline bool execute_op(const Case& c, Outcome& out) {
         if constexpr (d > 0) { if (got_t::constant_result()) nmc::count("compile_time_results_compared"); }
         nmc::count_max("deviation_bound_compiled", build_dev<Op>());
         std::string df = obs_diff(ref, got);
-        uint64_t h = nmc::mix(got.hash() ^ nmc::hash_vec(c.a[1]));
+        uint64_t h = got.hash();   // hash of the normalised observation
         // non-trivial: a kind other than dynamic is involved and the reference result is a success with >= 1 element, or a failure
         bool nontrivial = d > 0;
         if (df.empty()) out = Outcome::ok(nontrivial, h);
@@ -445,7 +445,7 @@ template <typename Op> inline bool execute_cx(const Case& c, Outcome& out) {
         Obs ref = ref_t::run(), got = cx_t::run();
         nmc::count("constexpr_results_compared");
         std::string df = obs_diff(ref, got);
-        uint64_t h = nmc::mix(got.hash() ^ (uint64_t)(K + 77));
+        uint64_t h = got.hash();
         if (df.empty()) out = Outcome::ok(true, h);
         else out = Outcome::bad(!ref.has ? "accepts-invalid" : (!got.has ? "rejects-valid" : "wrong"), std::string("[constexpr, ") + kind_name(K) + "] " + df, true, h);
     }, meta::make_index_sequence<Op::inputs::N>{});
